@@ -73,7 +73,7 @@ def build(repo, tier):
         name = f'C07/py/{q}'
         units.append(Unit(name, verify_unit(repo, cs, f, c)))
         fns.append((BFILE, q))
-        targets[name] = FnTarget(BI, q, c, prelude='from proof_generation.basic_interpreter import BasicInterpreter\nfrom proof_generation.interpreter import ExecutionPhase\nfrom proof_generation.proved import Proved',
+        targets[name] = FnTarget(BI, q, c, prelude=HIST_PRELUDE,
                                  call=_call(q), enum=_rule_enum(q))
     du, dt, dfn = merge(destructuring_units(repo, cs, 'C07', unwrap_classes=('Implies',), meths=('unwrap', 'extract'), deconstructs=()),
                         eq_units(repo, cs, 'C07'), family_units(repo, cs, 'C07', 'evar_is_free'),
@@ -84,18 +84,81 @@ def build(repo, tier):
                     functions=fns + dfn, notes=notes)
 
 
+HIST_PRELUDE = '''
+from proof_generation.basic_interpreter import BasicInterpreter
+from proof_generation.interpreter import ExecutionPhase
+from proof_generation.proved import Proved
+
+_SWAP = {'EVar': SVar, 'SVar': EVar, 'Exists': Mu, 'Mu': Exists, 'ESubst': SSubst, 'SSubst': ESubst, 'Implies': App, 'App': Implies}
+
+def _twin(p):
+    # the pattern with every node replaced by the class that has the same fields (where there is one): another pattern, same field values
+    cn = type(p).__name__
+    if cn in ('EVar', 'SVar'): return _SWAP[cn](p.name)
+    if cn in ('Exists', 'Mu'): return _SWAP[cn](p.var, _twin(p.subpattern))
+    if cn in ('Implies', 'App'): return type(p)(_twin(p.left), _twin(p.right))
+    return p
+
+def _rule(m, *args):
+    # the call under test is made on an interpreter that has ALREADY been used for related calls (what they leave behind must not change the answer)
+    bi = BasicInterpreter(ExecutionPhase.Proof)
+    if m == 'modus_ponens':
+        l, r = args
+        for a, b in ((Proved(_twin(l.conclusion)), r), (l, Proved(_twin(r.conclusion))), (r, l)):
+            try: bi.modus_ponens(a, b)
+            except BaseException: pass
+        return bi.modus_ponens(l, r)
+    if m == 'exists_generalization':
+        proved, var = args
+        c = proved.conclusion
+        warm = []
+        if type(c).__name__ == 'Implies':
+            warm = [Implies(c.left, _twin(c.right)), Implies(_twin(c.left), c.right), Implies(c.right, c.left)]
+        for w in warm:
+            try: bi.exists_generalization(Proved(w), var)
+            except BaseException: pass
+        return bi.exists_generalization(proved, var)
+    proved, delta = args
+    d = {k: _twin(v) for k, v in delta.items()}
+    try: bi.instantiate(proved, d)
+    except BaseException: pass
+    d.clear(); d.update(delta)                   # the caller reuses its dict for the next call
+    return bi.instantiate(proved, d)
+'''
+
+
 def _call(q):
     m = q.split('.')[1]
 
     def call(ax):
-        bi = 'BasicInterpreter(ExecutionPhase.Proof)'
         if m == 'modus_ponens':
-            return f"{bi}.modus_ponens({ax['left']}, {ax['right']})"
+            return f"_rule('modus_ponens', {ax['left']}, {ax['right']})"
         if m == 'exists_generalization':
-            return f"{bi}.exists_generalization({ax['proved']}, {ax['var']})"
-        return f"{bi}.instantiate({ax['proved']}, dict({ax['delta']}))"
+            return f"_rule('exists_generalization', {ax['proved']}, {ax['var']})"
+        return f"_rule('instantiate', {ax['proved']}, dict({ax['delta']}))"
     return call
 
 
 def _rule_enum(q):
-    return None
+    m = q.split('.')[1]
+
+    def gen(tier, rng):
+        small = rp.small_patterns(1)
+        pats = rp.small_patterns(2, rng=rng, cap=60)
+        imps = [p for p in pats if p[0] == 'PImplies']
+        if m == 'modus_ponens':
+            for l in imps[:40]:
+                for r in [l[1], l[2]] + rng.sample(small, min(4, len(small))):
+                    yield {'left.conclusion': l, 'right.conclusion': r}
+            for l in rng.sample(pats, min(10, len(pats))):
+                yield {'left.conclusion': l, 'right.conclusion': rng.choice(small)}
+        elif m == 'exists_generalization':
+            for c in imps[:60] + rng.sample(pats, min(8, len(pats))):
+                for x in (0, 1):
+                    yield {'proved.conclusion': c, 'var': ('PEVar', x)}
+        else:
+            maps = rp.small_maps()
+            for c in rng.sample(pats, min(40, len(pats))):
+                for d in rng.sample(maps, min(6, len(maps))):
+                    yield {'proved.conclusion': c, 'delta': d}
+    return gen
